@@ -167,8 +167,12 @@ macro_rules! dispatch_n {
             7 => $f::<7>($ctx, $idx),
             8 => $f::<8>($ctx, $idx),
             13 => $f::<13>($ctx, $idx),
+            17 => $f::<17>($ctx, $idx),
+            33 => $f::<33>($ctx, $idx),
             _ => unreachable!(),
         }
     };
 }
-pub const NS: [usize; 8] = [1, 2, 3, 4, 5, 7, 8, 13];
+/// tuple lengths compiled into the harness: the ones zkAbacus uses (1, 3, 5), neighbours, and lengths beyond 16 and 32
+/// (block sizes a batched multi-scalar multiplication or a fixed-size serde array impl might use)
+pub const NS: [usize; 10] = [1, 2, 3, 4, 5, 7, 8, 13, 17, 33];
